@@ -7,6 +7,9 @@ A_COMMON = [
     'A6 user callbacks answer as a function of their arguments and return; they do not change the store cells synchronously',
 ]
 A_CHAN = ['A2 crossbeam bounded(cap): linearizable FIFO with |q| <= cap; send/try_send/try_recv/len/recv as in contracts/channel.inc']
+A_CHAN = A_CHAN + ['A2b Exit-last protocol (rely of the consumer loops, recv_exit_last): the Exit marker is the last item a dispatch or subscription queue carries; producer side proved for close()']
+A_LIFE = ['A10 Drop for StoreImpl runs only on a closed store (precondition of that contract: the reducer job owns a handle until its loop has ended)',
+          'A11 pool slot empty => sender slot empty (precondition of Drop for DroppableStore; only stop()/the last drop empty the pool slot, after close())']
 A_POOL = ['A4 rusty_pool: execute(f) runs f exactly once on a worker; shutdown_join* waits for submitted work (or its timeout)']
 A_THREAD = ['A5 thread::Builder::spawn runs the closure once on a new thread; JoinHandle::join returns after it finished']
 
@@ -14,7 +17,7 @@ PROPS = {
     'C01': dict(units=['store'], assumptions=A_COMMON + A_CHAN),
     'C02': dict(units=['store'], kani=['lock'], assumptions=A_COMMON + A_CHAN),
     'C03': dict(units=['store'], assumptions=A_COMMON),
-    'C04': dict(units=['store'], kani=['lock'], assumptions=A_COMMON + A_CHAN + A_POOL),
+    'C04': dict(units=['store'], kani=['lock'], assumptions=A_COMMON + A_CHAN + A_POOL + A_LIFE),
     'C05': dict(units=['store'], kani=['lock'], assumptions=A_COMMON + A_CHAN),
     'C06': dict(units=['store'], kani=['lock'], assumptions=A_COMMON + A_CHAN),
     'C07': dict(units=['store'], assumptions=A_COMMON + A_POOL),
@@ -24,7 +27,7 @@ PROPS = {
     'C11': dict(units=['store'], assumptions=A_COMMON + A_POOL),
     'C12': dict(units=['store'], assumptions=A_COMMON),
     'C14': dict(units=['store'], assumptions=A_COMMON + A_CHAN),
-    'C15': dict(units=['store'], kani=['lock'], assumptions=A_COMMON + A_CHAN + A_POOL),
+    'C15': dict(units=['store'], kani=['lock'], assumptions=A_COMMON + A_CHAN + A_POOL + A_LIFE),
     'C16': dict(units=['store'], kani=['selector'], assumptions=A_COMMON),
     'C17': dict(units=['store'], assumptions=A_COMMON),
     'C18': dict(units=['store'], kani=['metrics', 'lock'], assumptions=A_COMMON + A_CHAN),
